@@ -32,6 +32,11 @@ using namespace QHttpEngine;
 // Default value for the bufferSize property
 const qint64 DefaultBufferSize = 65536;
 
+#ifdef QHTTPENGINE_VERIF
+// Verification hook: number of QIODeviceCopier objects currently alive
+extern "C" { QHTTPENGINE_EXPORT int qhttpengine_verif_live_copiers = 0; }
+#endif
+
 QIODeviceCopierPrivate::QIODeviceCopierPrivate(QIODeviceCopier *copier, QIODevice *srcDevice, QIODevice *destDevice)
     : QObject(copier),
       q(copier),
@@ -113,6 +118,11 @@ QIODeviceCopier::QIODeviceCopier(QIODevice *src, QIODevice *dest, QObject *paren
     : QObject(parent),
       d(new QIODeviceCopierPrivate(this, src, dest))
 {
+#ifdef QHTTPENGINE_VERIF
+    ++qhttpengine_verif_live_copiers;
+    connect(this, &QObject::destroyed, []() { --qhttpengine_verif_live_copiers; });
+#endif
+
     connect(src, &QIODevice::destroyed, this, &QIODeviceCopier::stop);
     connect(dest, &QIODevice::destroyed, this, &QIODeviceCopier::stop);
 }
